@@ -633,4 +633,21 @@ theorem uploadAttempt_good (ref fc : Nat) (i : InfoFork) (d r : Bytes) (st : UpS
     simp only
     split <;> exact ⟨rfl, rfl⟩
 
+/-- Hypotheses on what the client sends: a well-formed information fork, fork count 2 or 3 (any
+    16-bit value is allowed), sizes that fit the 32-bit size fields. -/
+structure ClientOK (fc : Nat) (i : InfoFork) (d r : Bytes) : Prop where
+  info : i.WFup
+  fc : fc < 65536
+  data : d.length < 4294967296
+  rsrc : r.length < 4294967296
+
+
+/-- Any further attempts keep a good state good. -/
+theorem uploadRun_foldl_good (ref fc : Nat) (i : InfoFork) (d r : Bytes) (h : ClientOK fc i d r) (cuts : List Nat) (st : UpState) (hg : st.Good d) :
+    (cuts.foldl (uploadAttempt ref fc i d r) st).Good d := by
+  induction cuts generalizing st with
+  | nil => exact hg
+  | cons c cs ih => exact ih _ (uploadAttempt_good ref fc i d r st c h.info h.fc h.data h.rsrc hg)
+
+
 end Mobius
